@@ -24,7 +24,7 @@ import (
 	"verif/harness/ev"
 )
 
-const rule = "cases = (logger level, global level, event level) triples: the full 256^3 grid in thorough, 256x256x{-128,-2..8,127} plus random triples in quick, through WithLevel and the named methods, with and without a call-recording sampler; every exported *Event method (found by reflection) on filtered events of nine origins (Nop, level gate, WithLevel(Disabled), Discard, sampler, global level, zero-value Logger with and without a sampler, the Ctx fallback logger) with instrumented arguments; Level text round-trips for all 256 levels; Panic/Fatal behaviour in re-executed children. oracle = written iff lvl>=logger && lvl>=global && lvl!=Disabled (and the sampler admits), WriteLevel gets lvl, sampler consulted only when both gates pass, inertness counters stay 0. non-trivial = triples where exactly one gate decides or lvl is NoLevel/Disabled/custom; one per (method, filtered-event origin). distinct by construction (enumeration) or FNV-64"
+const rule = "cases = (logger level, global level, event level) triples: the full 256^3 grid in thorough, 256x256x{-128,-2..8,127} plus random triples in quick, through WithLevel and the named methods, with and without a call-recording sampler; every exported *Event method (found by reflection) on filtered events of nine origins (Nop, level gate, WithLevel(Disabled), Discard, sampler, global level, zero-value Logger with and without a sampler, the Ctx fallback logger) with instrumented arguments and counting replacements for the global clock and marshal functions; Level text round-trips for all 256 levels; Panic/Fatal behaviour in re-executed children. oracle = written iff lvl>=logger && lvl>=global && lvl!=Disabled (and the sampler admits), WriteLevel gets lvl, sampler consulted only when both gates pass, inertness counters stay 0. non-trivial = triples where exactly one gate decides or lvl is NoLevel/Disabled/custom; one per (method, filtered-event origin). distinct by construction (enumeration) or FNV-64"
 
 var rec = ev.New("C04", rule)
 
@@ -536,6 +536,20 @@ func filteredEvents(c *counters, w *lw) map[string]func() *zerolog.Event {
 	}
 }
 
+// countGlobals replaces the package-level functions an event may call while it is built (the clock, the error,
+// stack, interface and caller marshalers) by counting ones: a filtered event calls none of them.
+func countGlobals(c *counters) (restore func()) {
+	ts, em, sm, im, cm := zerolog.TimestampFunc, zerolog.ErrorMarshalFunc, zerolog.ErrorStackMarshaler, zerolog.InterfaceMarshalFunc, zerolog.CallerMarshalFunc
+	zerolog.TimestampFunc = func() time.Time { c.n++; return ts() }
+	zerolog.ErrorMarshalFunc = func(err error) interface{} { c.n++; return em(err) }
+	zerolog.ErrorStackMarshaler = func(err error) interface{} { c.n++; return nil }
+	zerolog.InterfaceMarshalFunc = func(v interface{}) ([]byte, error) { c.n++; return im(v) }
+	zerolog.CallerMarshalFunc = func(pc uintptr, file string, line int) string { c.n++; return cm(pc, file, line) }
+	return func() {
+		zerolog.TimestampFunc, zerolog.ErrorMarshalFunc, zerolog.ErrorStackMarshaler, zerolog.InterfaceMarshalFunc, zerolog.CallerMarshalFunc = ts, em, sm, im, cm
+	}
+}
+
 func TestFilteredEventsInert(t *testing.T) {
 	et := reflect.TypeOf((*zerolog.Event)(nil))
 	origins := []string{"Nop-logger", "level-gated", "WithLevel(Disabled)", "Discard()", "sampled-out", "global-level", "zero-value-logger", "zero-value-logger+sampler", "Ctx-fallback-logger"}
@@ -566,6 +580,7 @@ func TestFilteredEventsInert(t *testing.T) {
 			var out []reflect.Value
 			var pan interface{}
 			func() {
+				defer countGlobals(c)()
 				defer func() { pan = recover() }()
 				out = cur.Method(mi).Call(args)
 			}()
@@ -630,6 +645,7 @@ func TestFilteredEventsInertAllMethods(t *testing.T) {
 				var pan interface{}
 				var out []reflect.Value
 				func() {
+					defer countGlobals(c)()
 					defer func() { pan = recover() }()
 					out = reflect.ValueOf(e).Method(mi).Call(args)
 				}()
